@@ -296,3 +296,9 @@ obligation('C05-e', 'T1 T5 T6', 'array stores of a pool append only at their end
            'batches once (shared with C06-f)', floor=8,
            necessary='a pool whose store appends where it should overwrite holds copies of other '
                      'batches: reuse pairs parameters with the wrong simulations')(_C06.c06_f)
+
+
+obligation('C05-f', 'T1 T11 T8', 'a saved / reopened pool still holds its stores (shared with '
+           'C06-h)', floor=6,
+           necessary='a pool whose stores are lost on save or reopen re-simulates (or silently '
+                     'drops) the batches it held')(_C06.c06_h)
